@@ -149,6 +149,11 @@ def _expand(state):
         for ev in _SYS.events(m):
             env.restore(snap)
             raised = None
+            # optional: read-only calls right before the event, in the same process (the events applied before this
+            # one may have made the library forget what it remembered from check_state above)
+            warm = getattr(_SYS, 'warm', None)
+            if warm is not None:
+                warm(m, ev)
             try:
                 _SYS.apply(ev, workdir)
             except Exception as exc:     # noqa: BLE001
@@ -175,13 +180,23 @@ def _expand(state):
             chain = getattr(_SYS, 'chain_events', None)
             if chain is not None and raised is None and not unchanged:
                 snap2 = None
-                for ev2 in chain(m, ev, m2):
+                for n2, ev2 in enumerate(chain(m, ev, m2)):
                     if snap2 is None:
                         env.close_pool()
                         snap2 = env.snapshot()
-                    else:
-                        env.restore(snap2)
+                    home = d2 = None
+                    if warm is not None:
+                        # replay the whole path in this process on a database file of its own (a new path: what the
+                        # library remembers per database path from the other paths explored by this worker cannot
+                        # mask or fake anything): state, read-only calls, the event, then the chained event
+                        home = env.db_path().parent
+                        d2 = env.fresh_db()
+                        env.restore(snap)
+                        warm(m, ev)
+                        _SYS.apply(ev, workdir)
                     try:
+                        if warm is None and n2:
+                            env.restore(snap2)
                         _SYS.apply(ev2, workdir)
                         m3 = _SYS.mstep(m2, ev2)
                         v3, _ = _SYS.check_state(m3, None, hist + [ev, ev2])
@@ -191,6 +206,11 @@ def _expand(state):
                             raise
                         v3 = [(f'observe:raises:{type(exc).__name__}@{site}',
                                f'after {hist + [ev, ev2]} (one process, no restore): {exc!r}')]
+                    finally:
+                        if d2 is not None:
+                            env.close_pool()
+                            env.wn.config.data_directory = home
+                            env.drop_db(d2)
                     V = list(V) + [(a, b + ' [same process and database as the previous events]') for a, b in v3]
                 if snap2 is not None:
                     env.restore(snap2)
